@@ -437,6 +437,7 @@ class SymExec:
             ci = _const_int(off)
             if ci is None:
                 self.__dict__.setdefault("offvals", {})[repr(off)] = off        # the value behind the printed offset
+                OFFVALS[repr(off)] = off
             if isinstance(base.base, tuple):      # row of a 2-d array
                 return (base.base[0], base.base[1:] + ((ci if ci is not None else repr(off)),))
             return (base.base, ci if ci is not None else repr(off))
@@ -838,6 +839,9 @@ def _load(st, p, n):
     return Vec(out)
 
 
+OFFVALS = {}
+
+
 def _store(st, p, v, n):
     if isinstance(p, Addr):
         if n == 1:
@@ -846,6 +850,8 @@ def _store(st, p, v, n):
         raise Unsupported("vector store to scalar")
     for i in range(n):
         off = _padd(p.off, i)
+        if not isinstance(off, int):
+            OFFVALS[repr(off)] = off        # the value behind the printed offset
         st.env[(p.base, off if isinstance(off, int) else repr(off))] = v[i]
 
 
